@@ -390,6 +390,9 @@ type Request struct {
 	Ctx          *Ctx
 	// ViaReader: call ParseReader on a reader over Input instead of Parse.
 	ViaReader bool
+	// DupOpts: every Option value is passed twice in the one call (an option value is
+	// immutable: applying it a second time sets the same thing).
+	DupOpts bool
 	// ViaFile: write Input to the file named Filename and call ParseFile on it.
 	ViaFile bool
 	// WarmStats (with Stats): the Stats value handed to the parse has already been used by an
@@ -418,6 +421,7 @@ type Response struct {
 	ExprCnt     uint64
 	HasStats    bool
 	ChoiceAlts  int
+	ChoiceCnt  string // canonical text of Stats.ChoiceAltCnt (sorted)
 	Globals     map[string]any
 }
 
@@ -468,3 +472,29 @@ func Names() []string {
 
 // ErrNoSuchPkg is returned by helpers when a package is missing.
 var ErrNoSuchPkg = errors.New("vrt: no such package")
+
+// ChoiceCounters renders Stats.ChoiceAltCnt canonically: "key{alt:n,alt:n};..." sorted.
+func ChoiceCounters(m map[string]map[string]int) string {
+	keys := make([]string, 0, len(m))
+	for k := range m {
+		keys = append(keys, k)
+	}
+	sort.Strings(keys)
+	var b strings.Builder
+	for _, k := range keys {
+		b.WriteString(k + "{")
+		alts := make([]string, 0, len(m[k]))
+		for a := range m[k] {
+			alts = append(alts, a)
+		}
+		sort.Strings(alts)
+		for i, a := range alts {
+			if i > 0 {
+				b.WriteString(",")
+			}
+			b.WriteString(a + ":" + strconv.Itoa(m[k][a]))
+		}
+		b.WriteString("};")
+	}
+	return b.String()
+}
